@@ -62,6 +62,12 @@ def _find_mul_const(e):
     return None
 
 
+_VEC_NON_GROWING = ("std::vec::Vec::len", "std::vec::Vec::pop", "std::vec::Vec::clear", "std::vec::Vec::truncate", "std::vec::Vec::as_mut_slice", "std::vec::Vec::as_mut_ptr",
+                    "std::ops::DerefMut::deref_mut", "std::ops::IndexMut::index_mut", "std::vec::Vec::push", "std::vec::Vec::reserve", "std::vec::Vec::reserve_exact",
+                    "std::vec::Vec::shrink_to_fit", "std::vec::Vec::swap_remove", "std::vec::Vec::remove", "std::vec::Vec::retain", "std::vec::Vec::dedup", "std::vec::Vec::drain",
+                    "std::vec::Vec::set_len", "core::slice::iter_mut", "core::slice::sort", "core::slice::sort_unstable", "core::slice::reverse")
+
+
 def rule_fd_bound(ctx, cfg, F):
     R = ctx.rule("FD-BOUND", "at every call of the first-fragment transmitter (the only sendmsg) the number of descriptors handed over is bounded "
                  "by the count the receiver's control buffer is sized for (interval analysis of the descriptor vector's length with branch refinement)")
@@ -129,6 +135,11 @@ def rule_fd_bound(ctx, cfg, F):
                     lo, hi = lo + 1, (hi + 1 if hi < INF else INF)
                 snaps = set()
             elif name in ("std::vec::Vec::extend", "std::vec::Vec::extend_from_slice", "std::vec::Vec::append", "std::vec::Vec::insert", "std::vec::Vec::resize") and is_V(t["args"][0]):
+                hi = INF
+                snaps = set()
+            elif name not in _VEC_NON_GROWING and name != ffname and any(
+                    op_local(a) is not None and f.local_ty(op_local(a)).startswith("&mut") and "Vec<i32>" in f.local_ty(op_local(a)) and is_V(a) for a in t["args"]):
+                # any other callee that receives `&mut` access to the descriptor vector may grow it (Extend::extend, a helper, ...)
                 hi = INF
                 snaps = set()
             elif name in ("std::vec::Vec::len", "core::slice::len") and is_V(t["args"][0]):
